@@ -283,6 +283,23 @@ pub fn record(args: &[String], out: &mut Out) {
             if n == 0 { break; }
         }
     }
+    // checksum-valid segwit-style strings over empty and tiny payloads (the decoders strip the checksum, then index into what is left)
+    if let (Some(tb), Some(tl)) = (arg(args, "--tab-bech32"), arg(args, "--tab-blech32")) {
+        let bech = crate::enc::Code::from_table(&read_ndjson(&tb)[0]);
+        let blech = crate::enc::Code::from_table(&read_ndjson(&tl)[0]);
+        for hrp in ["ex", "ert", "tex", "lq", "el", "tlq", "bc"] {
+            for (code, _name) in [(&bech, "bech"), (&blech, "blech")] {
+                for m in [false, true] {
+                    for data in [vec![], vec![0u8], vec![1u8], vec![16u8], vec![0u8, 3, 7], vec![1u8, 31, 31, 31, 31]] {
+                        let ck = code.checksum(hrp, &data, m);
+                        let mut t = format!("{}1", hrp);
+                        for d in data.iter().chain(ck.iter()) { t.push(crate::enc::CHARSET[*d as usize] as char); }
+                        strings.push(t);
+                    }
+                }
+            }
+        }
+    }
     strings.extend(["SIGHASH_ALL", "SIGHASH_SINGLE|SIGHASH_ANYONECANPAY", "0x83", "el1", "lq1", "ert1q", "1", "", "{\"a\":1}", "500000000", "cHNldP8="].iter().map(|s| s.to_string()));
     strings.push(crate::psetcodec::full_pset(&mut r).to_string());
     let mut rec = Rec { f, out, sample_every, n: 0, debug_last };
@@ -385,6 +402,25 @@ fn degenerate_ops(rec: &mut Rec, r: &mut Rng) {
                 rec.call("blind", "Transaction::blind/blind_issuances", 0, &d, || tx.clone().blind(&mut rng(2, 3), secp, &secrets, true), res);
             }
         }
+    }
+    // a PSET that arrives with an all-zero (or maximal) blinding scalar in its global map
+    for fill in [0x00u8, 0xff] {
+        let mut p = crate::psetcodec::full_pset(r);
+        let bytes = elements::encode::serialize(&p);
+        if let Some(mut maps) = crate::psetcodec::kv_parse(&bytes) {
+            // key: 0xfc | "pset" | subtype 0 | 32-byte scalar ; empty value
+            let mut key = vec![0xfcu8, 4, b'p', b's', b'e', b't', 0];
+            key.extend(std::iter::repeat(fill).take(32));
+            maps[0].insert(0, (key, vec![]));
+            let b2 = crate::psetcodec::kv_write(&maps);
+            let d2 = || json!({"pset_with_scalar_fill": fill, "bytes": hexs(&b2)});
+            if let Some(Ok(q)) = rec.call("decode", "deserialize::<PartiallySignedTransaction>", b2.len(), &d2, || deserialize::<Pset>(&b2), res) { p = q; }
+        }
+        let secrets: std::collections::HashMap<usize, elements::TxOutSecrets> = (0..p.inputs().len()).map(|i| (i, elements::TxOutSecrets::new(pools::asset_id(r), pools::abf(r), 7, pools::vbf(r)))).collect();
+        for o in p.outputs_mut() { o.amount_comm = None; o.asset_comm = None; o.value_rangeproof = None; o.asset_surjection_proof = None; o.ecdh_pubkey = None; o.amount = Some(5); o.asset = Some(secrets[&0].asset); o.blinder_index = Some(0); }
+        let dd = || json!({"blind_last_with_scalar_fill": fill});
+        rec.call("blind", "Pset::blind_last/odd-scalars", 0, &dd, || p.clone().blind_last(&mut rng(2, 9), secp, &secrets), res);
+        rec.call("blind", "Pset::blind_non_last/odd-scalars", 0, &dd, || p.clone().blind_non_last(&mut rng(2, 10), secp, &secrets), res);
     }
     // zero / huge values
     for v in [0u64, 1, u64::MAX] {
